@@ -1,6 +1,7 @@
 package server
 
 import (
+	"github.com/cbeuw/Cloak/internal/verifhook"
 	"sync"
 
 	"github.com/cbeuw/Cloak/internal/server/usermanager"
@@ -32,6 +33,7 @@ func (u *ActiveUser) CloseSession(sessionID uint32, reason string) {
 	}
 	remaining := len(u.sessions)
 	u.sessionsM.Unlock()
+	verifhook.Point("user.CloseSession.unlocked")
 	if remaining == 0 {
 		u.panel.TerminateActiveUser(u, "no session left")
 	}
